@@ -860,6 +860,30 @@ unsafe fn k_mmap(len: usize, _prot: c_int, _flags: c_int, fd: c_int, offset: i64
         set_errno(libc::EINVAL);
         return libc::MAP_FAILED;
     }
+    // The completion ring and the submission entries must be mapped in full: a10 indexes them
+    // with the granted sizes, and a shorter mapping only "works" as far as page rounding goes.
+    let need = match which {
+        1 => ring.cq_off[5] as usize + CQE_SIZE * ring.cq_entries as usize,
+        2 => SQE_SIZE * ring.sq_entries as usize,
+        _ => 0,
+    };
+    if len < need {
+        let (sqe, cqe) = (ring.sq_entries, ring.cq_entries);
+        s.violations.push(KViolation {
+            prop: "C18",
+            sig: format!("mapping-smaller-than-granted-queue:region={which}"),
+            detail: format!("region {which} mapped with {len} bytes, the kernel granted sq={sqe} cq={cqe} entries, which need {need} bytes: entries beyond the mapping are read/written outside it"),
+        });
+        let ring = s.rings.get_mut(&fd).unwrap();
+        let region = match which {
+            1 => &mut ring.cq_ring,
+            _ => &mut ring.sqes,
+        };
+        region.state = RegionState::Mapped;
+        let addr = region.ptr;
+        ring.mappings.push(Mapping { which, addr: addr.addr(), len, mapped: true });
+        return addr.cast();
+    }
     region.state = RegionState::Mapped;
     let addr = region.ptr;
     ring.mappings.push(Mapping {
